@@ -74,6 +74,9 @@ func installCounters() {
 			default:
 			}
 		}
+	} else {
+		// scripted schedules may park a thread right BEFORE a persistent mutation: arm mut:<class> <n>
+		mut = func(kind, arg string) { schedPause("mut:" + mutClass(kind, arg)) }
 	}
 	verifapi.SetHandlers(func(p string) {
 		switch p {
@@ -137,20 +140,28 @@ var (
 )
 
 func schedPause(point string) {
+	// an armed entry is named <point> or <point>#<tag> (several entries may watch one point, each counting the
+	// arrivals since it was armed)
 	schedMu.Lock()
-	a, ok := armedPts[point]
-	if !ok {
-		schedMu.Unlock()
-		return
+	var ch chan struct{}
+	for name, a := range armedPts {
+		base := name
+		if i := strings.IndexByte(name, '#'); i >= 0 {
+			base = name[:i]
+		}
+		if base != point || a.blocked {
+			continue
+		}
+		a.arrived++
+		if a.arrived == a.nth && ch == nil {
+			a.blocked = true
+			ch = a.release
+		}
 	}
-	a.arrived++
-	if a.arrived != a.nth {
-		schedMu.Unlock()
-		return
-	}
-	a.blocked = true
-	ch := a.release
 	schedMu.Unlock()
+	if ch == nil {
+		return
+	}
 	select {
 	case <-ch:
 	case <-time.After(10 * time.Second):
@@ -360,18 +371,19 @@ func (r *abortReader) Read(p []byte) (int, error) {
 }
 
 type histEnv struct {
-	mode   string
-	dir    string
-	cfg    config.Config
-	h      *verifapi.Handle
-	keys   []string // id -> key string (0 = "")
-	keyIds map[string]int
-	txs    []fs_db.Tx // handle number -> tx (index 0 unused)
-	shas   map[[32]byte]uint64
-	closed bool // closed by "closedb", to be opened again at its next use
-	txMu   sync.Mutex
-	heldMu sync.Mutex
-	held   []heldGet
+	mode    string
+	dir     string
+	cfg     config.Config
+	h       *verifapi.Handle
+	keys    []string // id -> key string (0 = "")
+	keyIds  map[string]int
+	txs     []fs_db.Tx // handle number -> tx (index 0 unused)
+	shas    map[[32]byte]uint64
+	closed  bool // closed by "closedb", to be opened again at its next use
+	txMu    sync.Mutex
+	heldMu  sync.Mutex
+	held    []heldGet
+	readers map[string]io.ReadCloser
 }
 
 func (e *histEnv) open() error {
@@ -464,7 +476,9 @@ func (e *histEnv) step(t []string) (res string) {
 			return errClass(st.Set(ctx, key, data))
 		case 'r':
 			return errClass(st.SetReader(ctx, key, &chunkReader{b: data, chunk: atoi(via[1:])}))
-		case 'c':
+		case 'c', 'd':
+			// c<sizes>: Create, Write*, Close; d<sizes>: the same, and when Close reports a failed store a SECOND Close
+			// (e.g. a deferred one after an explicit one) must report it too
 			f, err := st.Create(ctx, key)
 			if err != nil {
 				return errClass(err)
@@ -489,6 +503,13 @@ func (e *histEnv) step(t []string) (res string) {
 				}
 			}
 			cerr := f.Close()
+			if via[0] == 'd' && cerr != nil {
+				// the store failed: every Close reports it (after a successful Close a second one is outside the property)
+				cerr2 := f.Close()
+				if errClass(cerr2) != errClass(cerr) {
+					return "SECOND-CLOSE-DIFFERS(" + errClass(cerr) + " then " + errClass(cerr2) + ")"
+				}
+			}
 			if cerr != nil {
 				return errClass(cerr)
 			}
@@ -574,6 +595,39 @@ func (e *histEnv) step(t []string) (res string) {
 			return fmt.Sprintf("val %d:%s RETURNED-SLICE-OF-EARLIER-GET-CHANGED(%s)", len(data), hex.EncodeToString(s[:6]), hex.EncodeToString([]byte(corrupted)))
 		}
 		return fmt.Sprintf("val %d:%s", len(data), hex.EncodeToString(s[:6]))
+	case "openr":
+		// openr <name> <h> <k>: GetReader, the reader is kept open (consumed later by readr)
+		st, ok := e.store(atoi(t[2]))
+		if !ok {
+			return "BAD-HANDLE"
+		}
+		rc, err := st.GetReader(ctx, e.keys[atoi(t[3])])
+		if err != nil {
+			return errClass(err)
+		}
+		e.heldMu.Lock()
+		if e.readers == nil {
+			e.readers = map[string]io.ReadCloser{}
+		}
+		e.readers[t[1]] = rc
+		e.heldMu.Unlock()
+		return "ok"
+	case "readr":
+		// readr <name>: consume and close a reader obtained earlier
+		e.heldMu.Lock()
+		rc := e.readers[t[1]]
+		delete(e.readers, t[1])
+		e.heldMu.Unlock()
+		if rc == nil {
+			return "NO-SUCH-READER"
+		}
+		data, err := io.ReadAll(rc)
+		rc.Close()
+		if err != nil {
+			return errClass(err)
+		}
+		sum := sha256.Sum256(data)
+		return fmt.Sprintf("val %d:%s", len(data), hex.EncodeToString(sum[:6]))
 	case "hasmain":
 		// is the committed (main) version store registered? (it must be from the moment Open returns: commits that
 		// find none would each create their own)
